@@ -126,8 +126,9 @@ type Tracer struct {
 	NOps      int
 	lastOp    []int
 	kinds     []string
-	Digest    uint64 // running FNV-style digest of every event (used by C28)
-	Light     bool   // only compute the digest
+	Digest    uint64           // running FNV-style digest of every event (used by C28)
+	Light     bool             // only compute the digest
+	Created   []common.Address // addresses of creation frames entered
 }
 
 func NewTracer() *Tracer {
@@ -186,6 +187,9 @@ func (t *Tracer) onEnter(depth int, typ byte, from, to common.Address, input []b
 	t.mix(new(big.Int).SetBytes(from[12:]).Uint64(), new(big.Int).SetBytes(to[12:]).Uint64())
 	for _, b := range input {
 		t.mix(uint64(b))
+	}
+	if k == "CREATE" || k == "CREATE2" {
+		t.Created = append(t.Created, to)
 	}
 	if t.Light {
 		return
